@@ -216,8 +216,15 @@ def run(run, model):
     run.do(register, model)
     for dunder, what in (("__preconditions__", "precondition groups"), ("__postconditions__", "postconditions"), ("__postcondition_snapshots__", "snapshots")):
         run.do(meta.provenance_rule, model, "C18.merged-lists", dunder, what)
-    from . import c04
+    from . import c04, loops
     run.do(c04.structure_rules, model)
+    run.do(c04.invariant_provenance, model, "C18.merged-lists", "C18.inv-own")
+    # what the dunders list is what is enforced: evaluating the listed contracts by hand gives the checker's verdict
+    for role, ck in gates.checkers(model).items():
+        for kind, depth in (("PRE", 2), ("POST", 1)):
+            h = loops.helper_of(model, ck, kind)
+            if h is not None:
+                run.do(loops.verdict_rule, model, "C18.verdict", h[0], h[1], h[2], depth)
     run.minimum("C18.live-read", 6)
     run.minimum("C18.same-object", 5)
     run.minimum("C18.names", 6)
